@@ -57,6 +57,14 @@ def C04_full_ident (K : KwTable) (reserved : List (List Char)) : Prop :=
 
 /-! ## History: T4.1 decoding by the codec before 2843e02 (`Model/Lex.lean`) -/
 
+-- [review] NOTE on what is live at review time (`Gen.RenderPins.codecFixed = true`, `bqDoubled = true`): the string
+-- regexes of `C04_scan_quote` / `C04_scan_dquote` (`Lex.mQuote`, `Lex.mDQuote`) ARE the live ones in all three lexers
+-- (stream `scan` drives `scanq/scandq mindsdb`), so these two are not history although they stand in this section;
+-- the decoders `quoteString` / `unescQuote` / `Lex.constantToString` used by the `_partial` theorems are history.
+-- For identifiers the live (tied) model is `LexBq` (`parts2` / `ident2`): the main identifier theorems for the live
+-- code are `C04_identifier_bq_*` below; `C04_identifier_{mindsdb,mysql,sqlite}`, `C04_witness_ident` and
+-- `C04_witness_backquote` speak about `Lex.partsToStr` / `Lex.lexIdentPath`, which no stream drives any more.
+
 /-- the MindsDB `QUOTE_STRING` regex, with Python's backtracking, matches exactly a specification literal
 (for *every* literal, including the known-finding classes: the token boundary is always right) -/
 theorem C04_scan_quote (items : List Item) (rest : List Char) (hw : WF '\'' true items)
@@ -197,6 +205,13 @@ example : Codec.readString (srcLit '\'' [.qq]) = some (['\''], []) ∧
     Codec.readString (srcLit '\'' [.ch 'a', .esc '\'', .esc '\'', .ch 'b']) = some (['a', '\'', '\'', 'b'], []) ∧
     Codec.readString (Codec.constantToString ['\\']) = some (['\\'], []) := by decide
 
+-- [review] non-vacuity of `C04_codec_decode`: a well-formed literal with every item kind (leading and trailing `''`,
+-- `\\`, `\'`, a non-escape `\n` pair), followed by text; and the empty literal
+example : WF '\'' true [.qq, .ch 'a', .esc '\\', .esc '\'', .esc 'n', .qq] ∧
+    Codec.readString (srcLit '\'' [.qq, .ch 'a', .esc '\\', .esc '\'', .esc 'n', .qq] ++ " ,".toList) =
+      some ("'a\\'\\n'".toList, " ,".toList) := by decide
+example : Codec.readString ("''".toList) = some ([], []) := by decide  -- [review]
+
 /-! ## T4.4 integers -/
 
 /-- the decimal text of every natural number consists of digits (so `\d+` matches all of it) and the
@@ -204,6 +219,47 @@ example : Codec.readString (srcLit '\'' [.qq]) = some (['\''], []) ∧
 theorem C04_integer (n : Nat) :
     (Nat.repr n).toList.all Lex.isDigit = true ∧ digitsValue (Nat.repr n).toList = n :=
   ⟨repr_all_digits n, digitsValue_repr n⟩
+
+-- [review] `C04_integer` does not mention the number scanner `lexNumber` (the model of ID-before-FLOAT-before-INTEGER
+-- that the `number` correspondence stream ties to the real lexers).  The stronger statement: in every dialect the
+-- decimal text of every natural number is ONE INTEGER token, nothing left over, whose value is the number.
+theorem C04_review_digit_not_idLetter (c : Char) (h : Lex.isDigit c = true) : isIdLetter c = false := by
+  have hd : c.isDigit = true := h
+  have h1 : c.isAlpha = false := by
+    cases ha : c.isAlpha with
+    | false => rfl
+    | true => have := Ident.alpha_not_digit c ha; rw [hd] at this; cases this
+  have h2 : c ≠ '_' := by intro e; subst e; revert hd; decide
+  have h3 : c ≠ '$' := by intro e; subst e; revert hd; decide
+  have h4 : icExtra c = false := by
+    unfold icExtra
+    have a1 : c ≠ 'İ' := by intro e; subst e; revert hd; decide
+    have a2 : c ≠ 'ı' := by intro e; subst e; revert hd; decide
+    have a3 : c ≠ 'ſ' := by intro e; subst e; revert hd; decide
+    have a4 : c ≠ 'K' := by intro e; subst e; revert hd; decide
+    simp [a1, a2, a3, a4]
+  simp [isIdLetter, h1, h2, h3, h4]
+
+/-- [review] print → lex of every natural number, all dialects, through the scanner model -/
+theorem C04_review_integer_lex (d : Dialect) (n : Nat) :
+    lexNumber d (Nat.repr n).toList = some (.int n, []) := by
+  obtain ⟨hall, hval⟩ := C04_integer n
+  generalize hs : (Nat.repr n).toList = s at hall hval
+  have hne : s ≠ [] := by
+    rw [← hs, Nat.toList_repr]
+    intro e
+    have := congrArg List.length e
+    simp at this
+  have hd : ∀ c ∈ s, Lex.isDigit c = true := by simpa [List.all_eq_true] using hall
+  have tk := Ident.takeWhile_all Lex.isDigit s [] hd (by intro y t e; cases e)
+  simp only [List.append_nil] at tk
+  have tk2 := Ident.takeWhile_all isIdChar s [] (by
+    intro c hc; have := hd c hc; simp [isIdChar, Lex.isDigit] at this ⊢; exact Or.inr this) (by intro y t e; cases e)
+  simp only [List.append_nil] at tk2
+  have hany : s.any isIdLetter = false := by
+    rw [List.any_eq_false]
+    intro c hc; simp [C04_review_digit_not_idLetter c (hd c hc)]
+  simp [lexNumber, tk.1, tk.2, tk2.1, hne, hany, hval]
 
 /-! ## pins: what the hand models assume about the source -/
 /-- (SLY's `@_` decorator stores each pattern wrapped in one group) -/
@@ -316,6 +372,15 @@ example : LexBq.partsToStr reservedL [['a', '`', 'b']] = ['`', 'a', '`', '`', 'b
     LexBq.lexIdentPath K_mindsdb (LexBq.partsToStr reservedL [['a', '`', 'b'], ['`']]) = some [['a', '`', 'b'], ['`']] ∧
     LexBq.lexIdentPath K_mindsdb (LexBq.partsToStr reservedL [[]]) = none := by decide +kernel
 
+-- [review] non-vacuity of `C04_identifier_bq_mindsdb` on the classes named in the property's quantifier: a keyword, a
+-- blank, a dot inside a part, digits-first, a back-quote, non-ASCII, mixed case (printed form and read-back shown)
+example : LexBq.partsToStr reservedL ["select".toList, "a b".toList, "x.y".toList, "1a".toList, "a`b".toList, "É".toList, "Tbl".toList]
+      = "`select`.`a b`.`x.y`.`1a`.`a``b`.`É`.Tbl".toList ∧
+    LexBq.lexIdentPath K_mindsdb (LexBq.partsToStr reservedL
+      ["select".toList, "a b".toList, "x.y".toList, "1a".toList, "a`b".toList, "É".toList, "Tbl".toList]) =
+      some ["select".toList, "a b".toList, "x.y".toList, "1a".toList, "a`b".toList, "É".toList, "Tbl".toList] := by
+  decide +kernel
+
 /-! ## variables: the name codec (`Variable.get_string` ∘ VARIABLE / SYSTEM_VARIABLE rules + decoding) -/
 
 /-- full statement: every variable name placed in a tree prints to text that is read back as that variable -/
@@ -387,7 +452,10 @@ theorem C04_witness_ident :
     lexIdentPath K_mindsdb (partsToStr reservedL [['p','r','i','m','a','r','y','_','k','e','y']]) =
       some [['p','r','i','m','a','r','y','_','k','e','y']] := by decide +kernel
 
-/-- KF-C04-7: a part containing a back-quote is not read back -/
+-- [review] doc fix: this is now HISTORY too — a statement about `Lex.partsToStr` / `Lex.lexIdentPath` (identifier codec
+-- before the doubled back-quote).  The live code (`bqDoubled = true`) reads ``a`b`` back: see the example after
+-- `C04_identifier_bq_sqlite`.
+/-- KF-C04-7 (history, codec without doubled back-quotes): a part containing a back-quote is not read back -/
 theorem C04_witness_backquote : ¬ C04_full_ident K_mindsdb reservedL := by
   intro h
   have := h [['a', '`', 'b']] (by decide) (by decide)
